@@ -10,7 +10,7 @@
      boundaries) is exactly the complement: C28_text_fragment_exact_iff.
    - inject-during-fragmented-message: C28_inject_mid_message_refuted. *)
 From Coq Require Import List Bool Arith NArith.
-From MV Require Import Base.Bytes Model.WsUtf8 Model.Websocket Proofs.WsUtf8 Proofs.WsFragment Proofs.WsRelay Proofs.WsRelay2.
+From MV Require Import Base.Bytes Model.WsUtf8 Model.Websocket Proofs.WsUtf8 Proofs.WsFragment Proofs.WsRelay Proofs.WsRelay2 Proofs.WsSource.
 Import ListNotations.
 
 (* ---------------- Fragmentizer ---------------- *)
@@ -127,6 +127,17 @@ Theorem C28_inject_mid_message_refuted :
      = [(true, true, [x61; x62; x63; x78; x79; x7a]); (false, false, [x64; x65; x66])].
 Proof. exact inject_mid_message_refuted. Qed.
 Print Assumptions C28_inject_mid_message_refuted.
+
+(* frame_buf bookkeeping, while the connection is open: the messages recorded for a side (type, injected flag,
+   original content, fragment lengths) are exactly the reassembly, with the frame boundaries wsproto reported,
+   of the stream of message events of that side: received frames and injected fragments in arrival order.
+   Injected fragments are part of that stream, which is what merges an injection into a message in progress. *)
+Theorem C28_recorded_is_source : forall fs addon evs s1 cs, Forall no_close evs ->
+  run fs addon init evs = (s1, cs) -> is_crashed s1 = false ->
+  forall c, map rec_view (filter (from c) (messages s1))
+            = map col_view (collect [] [] (flat_map (stream_of fs c) evs)).
+Proof. exact recorded_is_source. Qed.
+Print Assumptions C28_recorded_is_source.
 
 (* while the connection is open every ping and pong is relayed to the other peer, in order, and nothing else *)
 Theorem C28_pings_relayed : forall fs addon evs s1 cs, Forall no_close evs ->
